@@ -141,3 +141,36 @@ func vfH_C19_errors() {
 	}
 	vfrt.Assert(seen, "errors/upstream-proxy-logged-with-user-and-host-visible-and-password-replaced")
 }
+
+//vf:assume C19-config-errors: a --credentials table of two entries that collide (same exact host:port, same *:port, same host:*, both global) or do not; the start-up error NewCredentialsMatcher returns (logged as the fatal start-up error) is compared between two tables that differ only in the passwords (1..2 / 1..3 symbolic printable bytes)
+
+//vf:harness property=C19 nopanic reach=config-error-duplicate,config-error-none steps=4000000
+func vfH_C19_config_errors() {
+	p1, p2 := vfPassword("password-1"), vfPassword("password-2")
+	kind := vfrt.Choice("collision", 5)
+	mk := func(pw string) []*HostPortUser {
+		a := &HostPortUser{HostPort: HostPort{Host: "h.example", Port: "80"}, Userinfo: url.UserPassword("alice", "fixed")}
+		b := &HostPortUser{HostPort: HostPort{Host: "h.example", Port: "80"}, Userinfo: url.UserPassword("bob", pw)}
+		switch kind {
+		case 1:
+			a.Host, b.Host = "*", "*"
+		case 2:
+			a.Port, b.Port = "0", "0"
+		case 3:
+			a.Host, b.Host, a.Port, b.Port = "*", "*", "0", "0"
+		case 4:
+			b.Port = "8080" // no collision
+		}
+		return []*HostPortUser{a, b}
+	}
+	_, e1 := NewCredentialsMatcher(mk(p1), vfLog{})
+	_, e2 := NewCredentialsMatcher(mk(p2), vfLog{})
+	vfrt.Assert((e1 == nil) == (e2 == nil), "config-errors/outcome-independent-of-the-password")
+	if e1 == nil || e2 == nil {
+		vfrt.Reach("config-error-none")
+		vfrt.Assert(kind == 4, "config-errors/colliding-entries-rejected")
+		return
+	}
+	vfrt.Reach("config-error-duplicate")
+	vfrt.Assert(e1.Error() == e2.Error(), "config-errors/start-up-error-text-independent-of-the-password")
+}
